@@ -53,7 +53,7 @@ fn run_case(ctx: &mut Ctx, dom: &str, a: &[Arg]) {
     match dom {
         "c14" | "align" | "conv" | "conveq" | "conveqc" | "elfty" | "fb" | "magic" | "pstr" => dom_common::run(ctx, dom, a),
         "mbi" | "mbiwalk" | "mbinull" | "iters" | "elfname" | "mbihuge" | "bigwalk" | "tageq" => dom_mbi::run(ctx, dom, a),
-        "hdr" | "hdrwalk" | "hdrnull" | "hiters" | "hdrhuge" | "findhuge" | "find" | "cksum" | "verify" => dom_hdr::run(ctx, dom, a),
+        "hdr" | "hdrwalk" | "hdrnull" | "hiters" | "hdrhuge" | "hbigwalk" | "findhuge" | "find" | "cksum" | "verify" => dom_hdr::run(ctx, dom, a),
         "cast" => dom_cast::run(ctx, a),
         "gettag" => dom_cast::run_gettag(ctx, a),
         // the constructors and builders exist with the crates' `builder` feature only
